@@ -16,6 +16,10 @@ LEAF_TY = {
     "CSliceBox": "cglue::boxed::CSliceBox<'static, {P}>",
     "CArc": "cglue::arc::CArc<{P}>",
     "CArcSome": "cglue::arc::CArcSome<{P}>",
+    "Fwd_ref": "cglue::forward::Fwd<&'static {P}>",
+    "Fwd_ref_mut": "cglue::forward::Fwd<&'static mut {P}>",
+    "Fwd_Rc": "cglue::forward::Fwd<std::rc::Rc<{P}>>",
+    "Fwd_Box": "cglue::forward::Fwd<Box<{P}>>",
 }
 
 PRELUDE = r'''#![allow(dead_code, non_camel_case_types, unused)]
